@@ -59,6 +59,11 @@ def conc_cfg(r):
         if r.random() < 0.3:
             svcs[n]["arguments"] = svcs[n]["arguments"] + [r.choice(["%env(\"GV_UNSET\", \"dflt\")%", "%envInt(\"GV_UNSET\", 7)%", "!value Value"])]
     svcs["val"] = {"value": "&MyStruct{}", "scope": r.choice(["contextual", "non_shared"]), "fields": {"Name": "%pa%"}, "getter": "GetVal", "type": "*T"}
+    # services without a constructor (a pointer value, a bare pointer type) in every declared scope: their identity is the address
+    svcs["vctx"] = {"value": "&MyStruct{}", "scope": "contextual", "getter": "GetVctx", "type": "*T"}
+    svcs["tctx"] = {"type": "*T", "scope": "contextual", "getter": "GetTctx"}
+    svcs["tns"] = {"type": "*T", "scope": "non_shared", "getter": "GetTns"}
+    svcs["vsh"] = {"value": "&MyStruct{}", "scope": "shared", "getter": "GetVsh", "type": "*T"}
     # repair the scope rule: shared must not depend on contextual -> drop offending references
     ctxl = {n for n, (sc, _) in scopes.items() if sc == "contextual"}
     for n, sv in svcs.items():
@@ -266,6 +271,26 @@ def run(tier, seed, replay):
                                 if key in owner and owner[key] != g.get("ctx", g["g"]):
                                     out.violation("contextual-shared-between-contexts", "contextual service %s: one instance observed from two different contexts" % o["name"], rep)
                                 owner[key] = g.get("ctx", g["g"])
+                # objects no constructor made (value / type-only services): identity by address
+                addr_ctx, addr_all = {}, {}
+                for g in lines[1:]:
+                    for o in g["obs"]:
+                        sv_ = cfg["services"].get(o["name"]) or {}
+                        if o["op"] in ("get", "getctx") and o.get("ptr") and "constructor" not in sv_ and not sv_.get("todo"):
+                            sc_ = sv_.get("scope")
+                            addr_all.setdefault(o["name"], []).append(o["ptr"])
+                            if sc_ == "contextual" and o["op"] == "getctx":
+                                addr_ctx.setdefault(o["name"], {}).setdefault(o["ptr"], set()).add(g.get("ctx", g["g"]))
+                for nm_, m_ in addr_ctx.items():
+                    shared_addr = [a_ for a_, cs in m_.items() if len(cs) > 1]
+                    if shared_addr:
+                        out.violation("contextual-shared-between-contexts", "contextual service %s (no constructor): the object at %s was handed to %d different contexts" % (nm_, shared_addr[0], len(m_[shared_addr[0]])), rep)
+                for nm_, addrs in addr_all.items():
+                    sc_ = (cfg["services"].get(nm_) or {}).get("scope")
+                    if sc_ == "non_shared" and len(set(addrs)) != len(addrs):
+                        out.violation("non-shared-reused", "non_shared service %s (no constructor): an object was handed out twice (%d results, %d distinct addresses)" % (nm_, len(addrs), len(set(addrs))), rep)
+                    if sc_ == "shared" and len(set(addrs)) != 1:
+                        out.violation("shared-identity", "shared service %s (no constructor): %d different objects were handed out" % (nm_, len(set(addrs))), rep)
                 # ... and within one context there is one instance, whichever goroutine of that context asked, in every round
                 per_ctx = {}
                 for g in lines[1:]:
